@@ -6,6 +6,17 @@ from engine.exec import Ex
 
 
 def verify_theory(T, repo, timeout_s=60, only=None, canaries=True):
+  # spec-level lemmas: proved from the definitional axioms alone, then available everywhere
+  lemma_obls = []
+  from engine.core import Obligation
+  import z3
+  base = list(T.axioms)
+  for name, f in T.lemmas:
+    o = Obligation('%s/spec-lemma/%s' % (T.pid, name), 'lemma', base, f, detail='consequence of the spec definitions')
+    o.owner = 'spec'
+    lemma_obls.append(o)
+  for name, f in T.lemmas:
+    T.axioms.append(f)
   ex = Ex(T, repo)
   per_fn = []
   for key, c in T.contracts.items():
@@ -31,10 +42,25 @@ def verify_theory(T, repo, timeout_s=60, only=None, canaries=True):
       finally:
         c.canary = False
       canary_obls.append((c, [o for o in obls if o.kind == 'canary']))
-  allo = [o for f in per_fn for o in f['obligations']]
+  allo = lemma_obls + [o for f in per_fn for o in f['obligations']]
   cano = [o for _, os_ in canary_obls for o in os_]
   wall = smt.discharge(allo, timeout_s=timeout_s)
   # canaries: only `proved` (= the exit is unreachable/vacuous) is a failure, so a
   # short in-process budget suffices; sat/unknown both mean "not refuted".
   wall += smt.discharge(cano, timeout_s=1, first_ms=300, phase2=False)
+  if lemma_obls:
+    per_fn.insert(0, dict(contract=_SpecLemmas(T), obligations=lemma_obls, paths=1, exits=1, gen_s=0.0))
   return per_fn, canary_obls, wall, ex
+
+
+class _SpecLemmas:
+  """Pseudo-contract that owns the spec-level lemmas in reports."""
+
+  def __init__(self, T):
+    self.file = 'contracts/%s.py' % T.pid.lower()
+    self.qualname = 'spec-lemmas'
+    self.instance = {}
+    self.loops = {}
+    self.label = 'spec-lemmas'
+    self.verify = True
+    self.note = ''
